@@ -123,6 +123,7 @@ class Spec:
         self.lazy_ok = set()    # (cls, name) fields whose presence is guaranteed by an invariant we assume (listed)
         self.fn_ids = {}        # known function name -> id
         self.macros = {}        # spec macro name -> lambda source text
+        self.gen_kinds = {}     # generator kind (as in `gen:<kind>` field types) -> qualname of the generator function under a `yields` contract
         self.total_dicts = set()   # dict kinds assumed total over the keys they are indexed with (I-CFG)
         self.per_node_lists = set()  # list kinds assumed to have exactly one entry per service node (I-CFG)
 
@@ -141,8 +142,10 @@ class Contract:
     def __init__(self, target, requires=(), ensures=(), modifies=(), types=None, returns=None, inline=False,
                  loop_invariants=None, raises=(), allocates=False, assumed=False, hints=(), ghost_updates=(),
                  props=(), decreases=None, pure=False, note="", cases=None, call_assumes=None, at_call=None,
-                 expect_calls=None, lemma_after=None, refines=None):
+                 expect_calls=None, lemma_after=None, refines=None, yields=None, gen_kind=None):
         self.target = target
+        self.yields = yields            # generator functions: text of a lambda k: <the k-th yielded value> (k from 0), proved at every `yield`
+        self.gen_kind = gen_kind        # ... and the `gen:<kind>` name under which fields holding such generators are declared
         self.refines = refines          # name of the class-level contract this one refines: callers whose static receiver type is wider
                                         # than this class use that contract, this one is for verifying the override itself
         self.requires = [self._lab(x, "pre", k) for k, x in enumerate(requires)]
@@ -1479,6 +1482,11 @@ class Executor:
 
     def comp_over(self, st, it, g, elt, node):
         S0, ety = self.iter_seq(it, st, node)
+        if not g.ifs and isinstance(elt, ast.Name) and isinstance(g.target, ast.Name) and elt.id == g.target.id:
+            # [x for x in xs]: a copy -- a new list object with exactly the source's contents
+            if self.spec_mode:
+                return SV("seq", S0, Ty("seq", args=[ety] if ety else []))
+            return self.new_list(st, S0, ety)
         k = fresh("ck", I)
         # evaluate filter and element under a symbolic position k
         s2 = st.copy()
@@ -1594,9 +1602,35 @@ class Executor:
     def ex_Expr(self, stmt, st):
         if isinstance(stmt.value, ast.Constant):
             return [(st, None)]
+        if isinstance(stmt.value, ast.Yield):
+            return self.ex_yield(stmt, st)
         out = []
         for s, v in self.ev(stmt.value, st):
             out.append((s, ("raise", v) if isinstance(v, Exc) else None))
+        return out
+
+    def ex_yield(self, stmt, st):
+        """`yield e` in a generator function under a `yields` contract: e must equal the contract's k-th value, where k is
+        the number of values yielded so far (ghost local `_yielded`)"""
+        c = self.contract_stack[0] if self.contract_stack else None
+        if c is None or not c.yields or self.call_stack:
+            raise Unsupported("yield outside a generator function under a `yields` contract", stmt)
+        from . import calls
+        out = []
+        for s, v in (self.ev(stmt.value.value, st) if stmt.value.value is not None else [(st, SV("val", Val.none, T("none")))]):
+            if isinstance(v, Exc):
+                out.append((s, ("raise", v)))
+                continue
+            k = s.env["_yielded"]
+            e2 = dict(self.entry_env)
+            e2.update(s.env)
+            lam = ast.parse(c.yields.strip(), mode="eval").body
+            e2[lam.args.args[0].arg] = k
+            spec = calls.spec_eval_value(self, s, e2, ast.unparse(lam.body))
+            self.oblige(s, "yield", "yielded-value-is-the-one-the-contract-prescribes", stmt, self.to_val(v) == self.to_val(spec))
+            s.env = dict(s.env)
+            s.env["_yielded"] = SV("int", k.t + 1, T("int"))
+            out.append((s, None))
         return out
 
     def ex_Return(self, stmt, st):
